@@ -757,6 +757,43 @@ def case_sta(run: Run, rng, si=None):
         ctx.count("sta-lines-checked", len(sect.get(tname, [])))
         if bad:
             ctx.disagree(f"bernese_sta {tname} lines vs regenerated layout", case, "conforms", bad[:2])
+    # ---- TYPE 002 lines byte for byte: the Lean model chooses the records (event dates, equipment valid at their start),
+    #      the regenerated layout renders them
+    T0 = datetime(1990, 1, 1)
+    sec = lambda t: int((t - T0).total_seconds())
+    fmt_t = lambda t: t.strftime("%Y %m %d %H %M %S")
+    want_lines: Optional[List[str]] = []
+    for k in sorted(si):
+        d = si[k]
+        rcv_l, ant_l, ecc_l = (list(d[kind].history.items()) for kind in ("receiver", "antenna", "eccentricity"))
+        cls: Dict[Any, int] = {}
+        h_arg = lambda items, key=None: ",".join(f"{sec(a)}:{sec(b)}:{cls.setdefault(key(o), len(cls)) if key else 0}"
+                                                  for (a, b), o in items) or "[]"
+        ans = drv.ask1(f"c17 starecords {int(skip_fw)} {h_arg(rcv_l, lambda o: (o.type, o.serial_number))} {h_arg(ant_l)} {h_arg(ecc_l)}")
+        ctx.count("sta-records-model", 0 if ans == "[]" else ans.count(",") + 1)
+        idn = d["identifier"]
+        for rec in ([] if ans == "[]" else ans.split(",")):
+            a, b, ri, ai, ei = (int(x) for x in rec.split(":"))
+            rcv, ant, ecc = rcv_l[ri][1], ant_l[ai][1], ecc_l[ei][1]
+            env = {"station": sval(k.upper()), "domes": sval("" if idn.domes is None else idn.domes), "flag": sval("001"),
+                   "date_from": sval(fmt_t(T0 + timedelta(seconds=a))), "date_to": sval(fmt_t(T0 + timedelta(seconds=b))),
+                   "rcv": sval(rcv.type), "rcv_serial": sval(rcv.serial_number),
+                   "rcv_serial_short": sval(re.sub("[^0-9]", "", rcv.serial_number)[-6:]),
+                   "ant": sval(ant.type), "radome": sval(ant.radome_type if ant.radome_type else "NONE"),
+                   "ant_serial": sval(ant.serial_number),
+                   "ant_serial_short": sval(re.sub("[^0-9]", "", ant.serial_number)[-6:] if ant.calibration else "999999"),
+                   "north": val(ecc.north), "east": val(ecc.east), "up": val(ecc.up),
+                   "description": sval(f"{idn.name}, {idn.country_code}" if idn.country_code else idn.name),
+                   "remark": sval(rcv.firmware)}
+            want_lines.append(";".join(f"{n}={v}" for n, v in env.items()))
+    rendered = drv.ask([f"c17 row bernese_sta {STA_LINES[1]} {e}" for e in want_lines])
+    model_002 = None if "err" in rendered else [bytes.fromhex(x).decode("utf-8").rstrip("\n") for x in rendered]
+    if model_002 != sect.get("TYPE 002", []):
+        real = sect.get("TYPE 002", [])
+        bad = next((j for j, (x, y) in enumerate(zip(model_002 or [], real)) if x != y), min(len(model_002 or []), len(real)))
+        ctx.disagree("bernese_sta TYPE 002 lines (records chosen by the Lean model, rendered with the regenerated layout)",
+                     {**case, "first_bad_line": bad, "lines": [len(model_002 or []), len(real)]},
+                     None if model_002 is None else model_002[bad : bad + 1], real[bad : bad + 1])
     # read-back with both parsers of the library: epochs, stations and numbers
     for pname in ("bernese_sta_v52", "bernese_sta"):
         with quiet():
@@ -1535,7 +1572,7 @@ def run(ctx: Ctx, prove: bool = True):
     try:
         r = Run(ctx, tmp)
         r.last_path = None
-        n = ctx.budget(640, 9000)
+        n = ctx.budget(640, 8000)
         dft = info["data_field_types"]
         for i in range(n):
             k = i % 6
